@@ -45,7 +45,7 @@ func c11TBuild(c c11TreeCase) *Item {
 	var rec func(n c11TNode, parent *Item) *Item
 	rec = func(n c11TNode, parent *Item) *Item {
 		id++
-		it := &Item{id: fmt.Sprintf("n%d", id), url: c11URL(n.U), parent: parent}
+		it := &Item{id: fmt.Sprintf("n%d", id), url: c11URLv(n.U, id), parent: parent}
 		st := c11TStatuses[n.S%len(c11TStatuses)]
 		if parent == nil {
 			it.id, it.url = "seed", c11URL(c.SeedURL)
